@@ -13,7 +13,7 @@ store) is an arbitrary type.
 
 A precompile node carries the SHAPE of its method's `Run` (`RunShape`: keeper writes on `stateDB.Context()` before / after
 `ExecuteNativeAction`, a deferred `recover()`, an EVM call that follows a keeper write inside the closure).  The positive
-theorems hold for programs all of whose precompile nodes have the clean shape (`Clean p`); for each of the three ways a
+theorems hold for programs all of whose precompile nodes have the clean shape (`Clean p`); for each of the four ways a
 shape can be unclean a theorem exhibits programs that break atomicity (so none of the conditions can be dropped, and the
 ORDER of the statements in `Run` is what decides: the same write after the native action is harmless); and the
 shape of every real method is regenerated from the Go AST on every run (`Gen.C09.runFacts`, `shapeOf`) and decided to be
@@ -208,15 +208,15 @@ theorem failed_native_action_leaves_no_trace (fuel : Nat) (ro : Bool) (gas : Nat
       (if keepGas h gas < h.pFail then (.fail, s, 0)
        else if h.swallow then exec fuel ro (keepGas h gas - h.pFail) rest s else (.revert, s, keepGas h gas - h.pFail)) := by
   apply failed_precompile_call_leaves_no_trace fuel ro gas h req sh out [] act rest s hsh (by simp) hpre hfund
-  have hb : sh.outerBefore = false ∧ sh.evmAfterWrite = false := by
+  have hb : sh.outerBefore = false ∧ sh.evmAfterWrite = false ∧ sh.dropsActionError = false := by
     simp only [RunShape.clean, Bool.and_eq_true, Bool.not_eq_true'] at hsh
-    exact ⟨hsh.1.1, hsh.2⟩
+    exact ⟨hsh.1.1.1, hsh.1.2, hsh.2⟩
   unfold runPre
   rcases hfail with hlt | hact
   · simp [hlt]
   · by_cases hlt : fwdGas h gas + h.stip < req
     · simp [hlt]
-    · simp [hlt, hb.1, hb.2, runClosure, runInner, St.keeper, hact]
+    · simp [hlt, hb.1, hb.2.1, hb.2.2, runClosure, runInner, St.keeper, hact]
 
 /-- a precompile call (clean shape, no EVM calls inside) that succeeds contributes exactly its action's result (and its
 logs) to the state the caller goes on with — journaled, so that it is undone as one unit with the rest of the frame
@@ -234,7 +234,7 @@ theorem successful_native_action_kept (fuel : Nat) (ro : Bool) (gas : Nat) (h : 
          { t with native := if sh.outerAfter then out a.2.1 else a.2.1, journal := .native (s.enter h).native :: t.journal }) := by
   have hb : sh.outerBefore = false ∧ sh.evmAfterWrite = false := by
     simp only [RunShape.clean, Bool.and_eq_true, Bool.not_eq_true'] at hsh
-    exact ⟨hsh.1.1, hsh.2⟩
+    exact ⟨hsh.1.1.1, hsh.1.2⟩
   cases hoa : sh.outerAfter <;>
   simp [exec, hpre, hfund, resolve, runPre, hgas, hb.1, hb.2, runClosure, runInner, St.keeper,
     hact, hpost, hoa, St.poke]
@@ -302,6 +302,19 @@ theorem evm_call_after_keeper_write_survives_caught_revert (v : View N) (f t : N
   simp [runTx, exec, resolve, CallHdr.unfunded, runPre, runClosure, runInner, St.keeper, St.enter, St.transfer, hdr0, okAct, fwdGas,
     keepGas, St.revertTo, undoAll, undo, commit, St.addLogs, RunShape.tidy]
 
+/-- `dropsActionError`: the keeper part fails after writing `f`; `ExecuteNativeAction` puts the snapshot back and returns the
+error — which `Run` overwrites before looking at it (`data, topic, err := …` on the next line), so `Run` goes on, emits
+its log and returns `true`.  The transaction SUCCEEDS and the EVM keeps the frame of a call none of whose Cosmos-side
+effects exist: the committed store is the initial one -/
+theorem dropped_action_error_keeps_frame_without_effects (v : View N) (f : N → N) :
+    runTx 5 1000 [.pre (hdr0 false) 0 { RunShape.tidy with dropsActionError := true } id [] (fun _ _ n => (.err, f n, []))] v =
+      (.ok, v, 1000) ∧
+    -- whereas with the error handed on the same call fails, and the transaction with it
+    (runTx 5 1000 [.pre (hdr0 false) 0 RunShape.tidy id [] (fun _ _ n => (.err, f n, []))] v).1 = .revert := by
+  constructor <;>
+  simp [runTx, exec, resolve, CallHdr.unfunded, runPre, runClosure, runInner, St.keeper, St.enter, hdr0, fwdGas, keepGas,
+    St.revertTo, undoAll, commit, St.addLogs, RunShape.tidy]
+
 /-- the SAME EVM call made BEFORE the keeper write (the order `handlerERC20Token` has: `transferFrom`, `burn`, then the
 bank moves) is covered by `atomicity`: nothing survives -/
 theorem evm_call_before_keeper_write_is_undone (v : View N) (f t : N → N) :
@@ -359,6 +372,10 @@ theorem table_shapes_clean : runFacts.all (fun rf => (shapeOf rf).clean) = true 
 every keeper write, and no path enumeration was cut short -/
 theorem evm_calls_precede_keeper_writes :
     runFacts.all (fun rf => !rf.pathsTruncated && rf.paths.all (fun p => !evmAfterW p)) = true := by decide
+
+/-- in every method the error `ExecuteNativeAction` returns is tested (or returned) before the variable holding it is
+assigned again or shadowed, and is never discarded (def-use over the statements of `Run`, regenerated) -/
+theorem native_action_error_propagates : runFacts.all (fun rf => rf.actionErrorDropped == 0) = true := by decide
 
 /-- no method wraps its native action in `recover()`, re-binds a ctx (gas meter, multistore, …; a cache branch whose
 write-back function is discarded excepted) or consumes contract gas on its own: the price of a call is exactly
